@@ -326,9 +326,10 @@ func execMissing(in Ev) Ev {
 	what := toStr(in["what"])
 	text := toStr(in["text"])
 	key := toStr(in["key"])
-	e := Ev{"op": "missing", "what": what, "text": text, "key": key, "named": false}
+	how, _ := in["how"].(string)
+	e := Ev{"op": "missing", "what": what, "text": text, "key": key, "named": false, "how": how}
 	calc := calculator.NewExpressionCalculator()
-	calc.SetAutoVariables(false)
+	calc.SetAutoVariables(how == "empty") // "empty": the default collection knows the name, the supplied collection is empty
 	var err error
 	var res *variants.Variant
 	oc, _ := guarded(func() {
@@ -337,6 +338,17 @@ func execMissing(in Ev) Ev {
 			return
 		}
 		vars := variables.NewVariableCollection()
+		if how == "empty" {
+			if what == "variable" {
+				res, err = calc.EvaluateUsingVariables(vars)
+			} else {
+				for _, v := range calc.DefaultVariables().GetAll() {
+					vars.Add(variables.NewVariable(v.Name(), variants.VariantFromInteger(2)))
+				}
+				res, err = calc.EvaluateUsingVariablesAndFunctions(vars, functions.NewFunctionCollection())
+			}
+			return
+		}
 		for _, k := range []string{"p", "q"} {
 			if k != key {
 				vars.Add(variables.NewVariable(strings.ToUpper(k), variants.VariantFromInteger(2)))
@@ -349,7 +361,16 @@ func execMissing(in Ev) Ev {
 		e["outcome"] = "panic"
 	case err != nil:
 		e["outcome"] = "error"
-		e["named"] = strings.Contains(strings.ToLower(err.Error()), key)
+		msg := strings.ToLower(err.Error())
+		e["named"] = strings.Contains(msg, key)
+		if how == "empty" && what == "variable" {
+			// every variable of the expression is missing from the empty collection: the error names whichever is met first
+			for _, n := range []string{" p ", " q "} {
+				if strings.Contains(msg, n) {
+					e["named"] = true
+				}
+			}
+		}
 	case res == nil:
 		e["outcome"] = "nil"
 	default:
@@ -377,6 +398,9 @@ func genC18(g *Gen) {
 		special := []string{"f(x) + F(y) + f", "'a' + a + \"a\"", "\"quoted id\" + 1", "NOT NOTx AND nota", "Min(Max(a, b), A)", "x IS NULL OR X IS NOT NULL",
 			"a[b] + A[B]", "'x' IN xs", "TRUE AND true_ OR False_", "sum(1,2) + Sum", "a.b", "_a + _A + __"}
 		_ = special
+		for _, fnm := range []string{"Min", "sum", "ABS"} {
+			g.Run("name known to the defaults, empty collection supplied", []Ev{{"op": "missing", "what": "function", "how": "empty", "key": strings.ToLower(fnm), "text": fnm + "(p, 2) + q"}})
+		}
 		for _, what := range []string{"variable", "function"} {
 			for _, tpl := range []string{"%s + 1", "p * (%s - q)", "Q + Min(p, %s)", "NOT (%s = p)", "p[%s]", "%s"} {
 				for _, nm := range []string{"zz", "Missing_1", "ÜBER", "x9"} {
@@ -385,6 +409,9 @@ func genC18(g *Gen) {
 						name = nm + "(p)"
 					}
 					g.Run("one unresolved "+what, []Ev{{"op": "missing", "what": what, "key": strings.ToLower(nm), "text": fmt.Sprintf(tpl, name)}})
+					if what == "variable" {
+						g.Run("name known to the defaults, empty collection supplied", []Ev{{"op": "missing", "what": what, "how": "empty", "key": strings.ToLower(nm), "text": fmt.Sprintf(tpl, name)}})
+					}
 				}
 			}
 		}
@@ -450,8 +477,20 @@ func genC18(g *Gen) {
 			var lx []mlex
 			mg.print(ns, &lx)
 			lx = fixTexts(lx)
+			var predef []any
+			for _, nm := range mNames {
+				switch r.Intn(6) {
+				case 0:
+					predef = append(predef, []any{cps(strings.ToUpper(nm)), cps("")})
+				case 1:
+					predef = append(predef, []any{cps(strings.ToLower(nm)), cps("v")})
+				}
+			}
+			if predef == nil || i%2 == 0 {
+				predef = []any{}
+			}
 			g.Run("random well-formed templates (names, if/unless words, repeated in different case)",
-				[]Ev{{"op": "tmpl", "lex": lexAny(lx), "vars": []any{}, "wellformed": true, "caseseed": 1}})
+				[]Ev{{"op": "tmpl", "lex": lexAny(lx), "vars": []any{}, "wellformed": true, "caseseed": 1, "predef": predef}})
 		}
 	default:
 		panic("C18: -part expr|coll|tmpl required")
